@@ -413,4 +413,82 @@ theorem strictWeak_keyLt : StrictWeak keyLt (fun v => okKey v = true) := by
               cases z <;> simp only [kindOf] at hk2 <;> (try omega) <;>
               exact (strictWeak_strLt (fun _ => True)).ntrans _ _ _ trivial trivial trivial h1 h2
 
+/-! ### `>` is the converse of `<` on the admitted keys (Python's `max` uses `>`, `min` and `sorted` use `<`) -/
+
+theorem litGt_flip (a b : Term) (ha : isLit a = true) (hb : isLit b = true)
+    (oa : okKey (some a) = true) (ob : okKey (some b) = true) : litGt a b = litLt b a := by
+  rw [litLt_eq b a hb ha ob oa]
+  cases a <;> cases b <;> simp only [isLit, Bool.false_eq_true] at ha hb
+  · -- num, num
+    rename_i d1 v1 s1 d2 v2 s2
+    simp only [litGt, litCls, litInner, ne_eq, not_true_eq_false, if_false]
+  · rename_i d v s x
+    have h := okNum oa
+    have hne : d ≠ DT.boolean := by rintro rfl; omega
+    simp [litGt, litCls, Term.dt, hne, blt_of_lt h.1, blt01]
+  · rename_i d v s l g
+    have h := okNum oa
+    have hne : d ≠ DT.string := by rintro rfl; omega
+    simp [litGt, litCls, Term.dt, hne, blt_of_ge (Nat.le_of_lt h.2), blt21]
+  · rename_i x d v s
+    have h := okNum ob
+    have hne : DT.boolean ≠ d := by rintro rfl; omega
+    simp [litGt, litCls, Term.dt, hne, blt_of_ge (Nat.le_of_lt h.1), blt10]
+  · rename_i x y
+    cases x <;> cases y <;> simp [litGt, litCls, litInner, Term.dt]
+  · simp [litGt, litCls, Term.dt, blt_of_ge (Nat.le_of_lt rank_bool_str), blt20]
+  · rename_i l g d v s
+    have h := okNum ob
+    have hne : DT.string ≠ d := by rintro rfl; omega
+    simp [litGt, litCls, Term.dt, hne, blt_of_lt h.2, blt12]
+  · simp [litGt, litCls, Term.dt, blt_of_lt rank_bool_str, blt02]
+  · rename_i l1 g1 l2 g2
+    simp only [litGt, litCls, litInner, Term.dt, ne_eq, not_true_eq_false, if_false]
+    by_cases hg : g1 = g2
+    · subst hg; simp
+    · have hg' : ¬ g2 = g1 := fun e => hg e.symm
+      simp only [hg, hg', not_false_eq_true, if_true]
+      by_cases h1 : g1 = []
+      · subst h1
+        cases g2 with
+        | nil => exact absurd rfl hg
+        | cons c cs => simp [strLt]
+      · by_cases h2 : g2 = []
+        · subst h2
+          cases g1 with
+          | nil => exact absurd rfl h1
+          | cons c cs => simp [strLt]
+        · simp [h1, h2]
+
+theorem termGt_flip (x y : Term) (hk : kindOf (some x) = kindOf (some y))
+    (ox : okKey (some x) = true) (oy : okKey (some y) = true) : termGt x y = termLt y x := by
+  by_cases hx : isLit x = true
+  · have hy : isLit y = true := lit_of_kind (by rw [← hk]; exact kind_lit hx)
+    rw [termLt_lit _ _ hy hx, ← litGt_flip x y hx hy ox oy]
+    cases x <;> cases y <;> simp only [isLit, Bool.false_eq_true] at hx hy <;> rfl
+  · cases x <;> simp only [isLit, not_true_eq_false] at hx <;>
+      cases y <;> simp only [kindOf] at hk <;> (try omega) <;> rfl
+
+theorem keyGt_flip (a b : Val) (oa : okKey a = true) (ob : okKey b = true) : keyGt a b = keyLt b a := by
+  unfold keyGt keyLt
+  by_cases hr : valRank a = valRank b
+  · have h1 : ¬ (valRank a ≠ valRank b) := fun h => h hr
+    have h2 : ¬ (valRank b ≠ valRank a) := fun h => h hr.symm
+    rw [if_neg h1, if_neg h2]
+    cases a with
+    | none => cases b <;> rfl
+    | some x =>
+      cases b with
+      | none => rfl
+      | some y =>
+        simp only
+        by_cases e : x = y
+        · subst e; simp
+        · have e' : ¬ y = x := fun h => e h.symm
+          simp only [e, e', if_false]
+          exact termGt_flip x y (kind_of_rank hr) oa ob
+  · have h1 : valRank a ≠ valRank b := hr
+    have h2 : valRank b ≠ valRank a := fun h => hr h.symm
+    rw [if_pos h1, if_pos h2]
+
 end RV.C08
